@@ -47,15 +47,21 @@ FreshL(I, alive) == CHOOSE r \in Refs \ UsedL(I, alive) : \A q \in Refs \ UsedL(
 \* garbage collection + canonical numbering: unreachable payloads are reset and the reachable
 \* ones renumbered in the order of the least context that points to them (reference identifiers
 \* are opaque, so this is a symmetry reduction of the model, it keeps the state space small)
-MinUser(cv, alive, r) == CHOOSE c \in alive : cv[c] = r /\ \A d \in alive : cv[d] = r => c <= d
-Rank(cv, alive, used, r) == 1 + Cardinality({q \in used : MinUser(cv, alive, q) < MinUser(cv, alive, r)})
-Renumber(heap, cv, alive, used, empty) ==
-  [hp |-> [r \in Refs |-> IF \E q \in used : Rank(cv, alive, used, q) = r
-                          THEN heap[CHOOSE q \in used : Rank(cv, alive, used, q) = r] ELSE empty],
-   cv |-> [c \in Ctxs |-> IF c \in alive /\ cv[c] # NoRef THEN Rank(cv, alive, used, cv[c]) ELSE NoRef]]
+\* (contexts are numbered 1..NCtx)
+RECURSIVE Order(_, _, _, _)
+Order(cv, alive, c, acc) ==
+  IF c > NCtx THEN acc
+  ELSE IF c \in alive /\ cv[c] # NoRef /\ ~(\E i \in 1..Len(acc) : acc[i] = cv[c])
+       THEN Order(cv, alive, c + 1, Append(acc, cv[c]))
+       ELSE Order(cv, alive, c + 1, acc)
+Idx(seq, r) == CHOOSE i \in 1..Len(seq) : seq[i] = r
+Renumber(heap, cv, alive, empty) ==
+  LET ord == Order(cv, alive, 1, <<>>) IN
+  [hp |-> [r \in Refs |-> IF r <= Len(ord) THEN heap[ord[r]] ELSE empty],
+   cv |-> [c \in Ctxs |-> IF c \in alive /\ cv[c] # NoRef THEN Idx(ord, cv[c]) ELSE NoRef]]
 GC(I, alive) ==
-  LET d == Renumber(I.hd, I.cvd, alive, UsedD(I, alive), EmptyD)
-      l == Renumber(I.hl, I.cvl, alive, UsedL(I, alive), <<>>)
+  LET d == Renumber(I.hd, I.cvd, alive, EmptyD)
+      l == Renumber(I.hl, I.cvl, alive, <<>>)
   IN [I EXCEPT !.hd = d.hp, !.cvd = d.cv, !.hl = l.hp, !.cvl = l.cv]
 
 \* storage.set(new dict object) in context c   /   mutate the dict object c's ContextVar points to
